@@ -363,9 +363,13 @@ def run(mod, tier, seed, replay=None):
         tail = " no-failing-input-found" if kind != "property-fails-on-implementation" else ""
         print(f"  [{kind}] {msgs[0][:400]}")
         print(f"VIOLATION property={pid} replay={path}{tail}")
+    ties = ""
+    if obl_rows:
+        ties = (f", translated-source obligations: {sum(1 for o in obl_rows if o['ok'] is True)} proved / "
+                f"{sum(1 for o in obl_rows if o['ok'] is None)} not applicable / {sum(1 for o in obl_rows if o['ok'] is False)} broken")
     print(f"{pid} {tier}: {len(cases)} cases ({len(nontriv)} non-trivial), {len(terms)} model-checked, "
           f"{len(cbad)} mismatches, {len(dfail)} direct failures ({len(known_hits)} recorded findings hit), {n_thm} theorems, "
-          f"{time.time() - ctx.t0:.1f}s")
+          f"{time.time() - ctx.t0:.1f}s{ties}")
     return 1 if violations else 0
 
 
